@@ -59,13 +59,23 @@ def read_expr(var, jinja=False):
 
 def task_yaml(P, T):
     d = {}
-    d['action'] = 'verif.async_act' if T.get('async') else 'verif.act'
-    inp = {'t': T['name']}
-    if T.get('reads'):
-        inp['x'] = {v: read_expr(v, T.get('jinja')) for v in T['reads']}
-    if T.get('bad_input'):
-        inp['p'] = '<% $.nosuch.attr.deep %>'
-    d['input'] = inp
+    if T.get('workflow'):
+        d['workflow'] = T['workflow']
+        inp = dict(T.get('wf_input') or {})
+        if inp:
+            d['input'] = inp
+    else:
+        d['action'] = 'verif.async_act' if T.get('async') else 'verif.act'
+        inp = {'t': T['name']}
+        if T.get('reads'):
+            inp['x'] = {v: read_expr(v, T.get('jinja')) for v in T['reads']}
+        if T.get('bad_input'):
+            inp['p'] = '<% $.nosuch.attr.deep %>'
+        d['input'] = inp
+    if T.get('with_items') is not None:
+        d['with-items'] = T['with_items']
+    if T.get('concurrency') is not None:
+        d['concurrency'] = T['concurrency']
     if T.get('join') is not None:
         d['join'] = T['join']
     if T.get('publish'):
@@ -114,7 +124,12 @@ def to_def(P):
     if P.get('defaults'):
         wf['task-defaults'] = P['defaults']
     wf['tasks'] = {T['name']: task_yaml(P, T) for T in P['tasks']}
-    return {'version': '2.0', P['name']: wf}
+    doc = {'version': '2.0', P['name']: wf}
+    for C in P.get('children') or []:
+        sub = to_def(C)
+        sub.pop('version')
+        doc.update(sub)
+    return doc
 
 
 def to_yaml(P):
@@ -124,10 +139,10 @@ def to_yaml(P):
 def gen(rng, n_tasks=None, p_async=0.35, p_guard=0.25, p_err_edge=0.3,
         p_join=0.8, partial_joins=True, merges=True, commands=False,
         p_publish=0.6, jinja=True, bad_expr=False, defaults=False,
-        name='wf', min_tasks=3, max_tasks=8, reads=True):
+        name='wf', min_tasks=3, max_tasks=8, reads=True, prefix='t'):
     """Random DAG workflow.  Edges go from lower to higher index."""
     n = n_tasks or rng.randint(min_tasks, max_tasks)
-    names = ['t%d' % i for i in range(n)]
+    names = ['%s%d' % (prefix, i) for i in range(n)]
     P = {'name': name, 'input': {'f0': True, 'f1': False, 'n': 3},
          'tasks': [], 'features': []}
     P['input']['f0'] = rng.random() < 0.7
@@ -255,7 +270,9 @@ def gen(rng, n_tasks=None, p_async=0.35, p_guard=0.25, p_err_edge=0.3,
 def gen_outcomes(rng, P, p_fail=0.25, p_cancel=0.0):
     """Outcome table: which tasks fail (all attempts)."""
     rules = []
-    for T in P['tasks']:
+    tasks = [T for Q in all_programs(P) for T in Q['tasks']
+             if not T.get('workflow')]
+    for T in tasks:
         r = rng.random()
         if r < p_fail:
             rules.append({'t': T['name'], 'outcome': ['err',
@@ -277,3 +294,38 @@ def shape_hash(P):
                             key=str)] for T in P['tasks']],
                    sort_keys=True, default=str)
     return hashlib.sha1(s.encode()).hexdigest()[:12]
+
+
+def gen_tree(rng, depth=1, n_children=None, **kw):
+    """Parent workflow some of whose tasks run generated sub-workflows
+    (nesting up to `depth`)."""
+    kw.setdefault('max_tasks', 5)
+    P = gen(rng, **kw)
+    P['children'] = []
+    if depth <= 0:
+        return P
+    k = n_children or rng.randint(1, 2)
+    cands = list(P['tasks'])
+    rng.shuffle(cands)
+    for i, T in enumerate(cands[:k]):
+        cname = '%s_c%d' % (P['name'], i)
+        ckw = dict(kw)
+        ckw['name'] = cname
+        ckw['prefix'] = '%s_t' % cname
+        ckw['max_tasks'] = 4
+        C = gen_tree(rng, depth - 1, n_children=1, **ckw)
+        P['children'].append(C)
+        T['workflow'] = cname
+        T['async'] = False
+        T['wf_input'] = {'f0': '<% $.f0 %>', 'f1': '<% $.f1 %>',
+                         'n': '<% $.n %>'}
+        T['reads'] = []
+    P['features'] = sorted(set(P['features']) | {'subwf'})
+    return P
+
+
+def all_programs(P):
+    out = [P]
+    for C in P.get('children') or []:
+        out.extend(all_programs(C))
+    return out
